@@ -73,24 +73,83 @@ package graphalg
 // Well-formed flow graph: predecessor lists name valid nodes.
 //@ spec wfBi(g graph.BiGraph) bool = g.NumNodes() >= 0 && (forall b in 0..g.NumNodes(), k in 0..len(g.In(b)) :: 0 <= g.In(b)[k] && g.In(b)[k] < g.NumNodes())
 
-// What DomFrontier needs of IDom's result: ranges, the root has none,
-// and for every reachable node b the immediate dominator of b lies on the
-// idom-chain of every reachable predecessor of b. (A consequence of "idom[b]
-// dominates b"; that IDom computes dominators is NOT proved, see DESIGN C19.)
-//@ spec isIDom(g graph.BiGraph, root int, idom []int) bool =
-//@     len(idom) == g.NumNodes() && (forall x in 0..len(idom) :: -1 <= idom[x] && idom[x] < len(idom)) && idom[root] == -1 &&
+// What DomFrontier needs of IDom's result: ranges, the root has none
+// (idomShape), and for every reachable node b the immediate dominator of b
+// lies on the idom-chain of every reachable predecessor of b (idomChains; a
+// consequence of "idom[b] dominates b").
+//@ spec idomShape(g graph.BiGraph, root int, idom []int) bool =
+//@     len(idom) == g.NumNodes() && (forall x in 0..len(idom) :: -1 <= idom[x] && idom[x] < len(idom)) && idom[root] == -1
+//@ spec idomChains(g graph.BiGraph, root int, idom []int) bool =
 //@     (forall b in 0..len(idom), k in 0..len(g.In(b)) :: (b == root || idom[b] != -1) && (g.In(b)[k] == root || idom[g.In(b)[k]] != -1) ==> anc(idom, g.In(b)[k], idom[b]))
+//@ spec isIDom(g graph.BiGraph, root int, idom []int) bool = idomShape(g, root, idom) && idomChains(g, root, idom)
 
-//@ assume func IDom
+// The Cooper-Harvey-Kennedy iteration. chainOK is the invariant that keeps
+// intersect inside the arrays: every processed node (idom != -1) points to
+// a processed node that is itself or has a larger post-order number.
+//@ spec chainOK(idom []int, poNum []int) bool = len(poNum) == len(idom) &&
+//@     (forall x in 0..len(idom) {idom[x]} :: idom[x] != -1 ==> 0 <= idom[x] && idom[x] < len(idom) && (idom[x] == x || poNum[idom[x]] > poNum[x])) &&
+//@     (forall x in 0..len(idom), y in 0..len(idom) {idom[x], idom[y]} :: idom[x] == y ==> idom[y] != -1)
+// isect: the two-finger walk as a function; foldI: the value the inner
+// loop of IDom computes for one node from its predecessor list.
+//@ spec isect(idom []int, poNum []int, b1 int, b2 int) int =
+//@     b1 == b2 ? b1 : (poNum[b1] < poNum[b2] ? isect(idom, poNum, idom[b1], b2) : isect(idom, poNum, b1, idom[b2]))
+//@ spec foldI(idom []int, poNum []int, preds []int, k int) int =
+//@     k <= 0 ? -1 : (idom[preds[k-1]] == -1 ? foldI(idom, poNum, preds, k-1) : (foldI(idom, poNum, preds, k-1) == -1 ? preds[k-1] : isect(idom, poNum, preds[k-1], foldI(idom, poNum, preds, k-1))))
+
+//@ func intersect
 //@   model int
-//@   trusted Cooper-Harvey-Kennedy fixpoint: that it computes immediate dominators is not verified
-//@   requires wfBi(g) && 0 <= root && root < g.NumNodes()
-//@   ensures isIDom(g, root, result) && fresh(result)
+//@   requires chainOK(idom, poNum) && 0 <= b1 && b1 < len(idom) && 0 <= b2 && b2 < len(idom) && idom[b1] != -1 && idom[b2] != -1
+//@   ensures [def]       result == isect(idom, poNum, b1, b2)
+//@   ensures [processed] 0 <= result && result < len(idom) && idom[result] != -1
+//@   ensures [above]     poNum[result] >= poNum[b1] && poNum[result] >= poNum[b2]
+//@   loop 1 invariant 0 <= b1 && b1 < len(idom) && 0 <= b2 && b2 < len(idom) && idom[b1] != -1 && idom[b2] != -1 && isect(idom, poNum, b1, b2) == isect(idom, poNum, old(b1), old(b2)) && poNum[b1] >= poNum[old(b1)] && poNum[b2] >= poNum[old(b2)]
+//@   loop 2 invariant 0 <= b1 && b1 < len(idom) && 0 <= b2 && b2 < len(idom) && idom[b1] != -1 && idom[b2] != -1 && isect(idom, poNum, b1, b2) == isect(idom, poNum, old(b1), old(b2)) && poNum[b1] >= poNum[old(b1)] && poNum[b2] >= poNum[old(b2)]
+//@   loop 3 invariant 0 <= b1 && b1 < len(idom) && 0 <= b2 && b2 < len(idom) && idom[b1] != -1 && idom[b2] != -1 && isect(idom, poNum, b1, b2) == isect(idom, poNum, old(b1), old(b2)) && poNum[b1] >= poNum[old(b1)] && poNum[b2] >= poNum[old(b2)]
+//@   assigns nothing
+
+// IDom is verified against: shape of the result; memory safety of the whole
+// iteration (chainOK is an inductive invariant GIVEN one assumed fact, marked
+// below: when a node of the post-order is processed, the candidate computed
+// from its processed predecessors exists and has a larger post-order number -
+// true because the node's DFS-tree parent precedes it in reverse post-order;
+// not proved); and that the loop ends at a fixpoint of the CHK equations
+// (assert fixpoint). That the fixpoint is the dominator tree (idomChains and
+// the rest of C19's statement) is NOT proved: idomChains is exported as an
+// assumed postcondition.
+//@ spec biReq(g graph.BiGraph) bool = wfBi(g) && wfG(g) && (forall x int :: !fresh(g.Out(x)) && !fresh(g.In(x)))
+//@ spec idomInv(g graph.BiGraph, root int, idom []int, poNum []int, rpo []int) bool =
+//@     len(idom) == g.NumNodes() && chainOK(idom, poNum) && idom[root] == root && allin(rpo, g.NumNodes()) &&
+//@     (forall x in 0..len(idom) :: -1 <= idom[x] && idom[x] < len(idom))
+//@ spec fixAt(g graph.BiGraph, root int, idom []int, poNum []int, b int) bool =
+//@     b != root ==> idom[b] == foldI(idom, poNum, g.In(b), len(g.In(b)))
+
+//@ func IDom
+//@   model int
+//@   requires biReq(g) && 0 <= root && root < g.NumNodes()
+//@   ensures [shape] idomShape(g, root, result) && fresh(result)
+//@   ensures [assumed dominator-chains] idomChains(g, root, result)
+//@   loop 1 (i) modifies poNum[*]
+//@   loop 1 (i) preserves po[*]
+//@   loop 1 (i) invariant len(poNum) == g.NumNodes() && allin(po, g.NumNodes()) && nodup(po) && len(po) >= 1 && po[len(po)-1] == root && (forall j in 0..i :: poNum[po[j]] == j)
+//@   loop 2 (i) modifies idom[*]
+//@   loop 2 (i) preserves poNum[*], rpo[*]
+//@   loop 2 (i) invariant len(idom) == g.NumNodes() && (forall x in 0..i :: idom[x] == -1)
+//@   loop 3 modifies idom[*]
+//@   loop 3 preserves poNum[*], rpo[*]
+//@   loop 3 invariant idomInv(g, root, idom, poNum, rpo) && (!changed ==> (forall j in 0..len(rpo) :: fixAt(g, root, idom, poNum, rpo[j])))
+//@   loop 4 (b) modifies idom[*]
+//@   loop 4 (b) preserves poNum[*], rpo[*]
+//@   loop 4 (b) invariant idomInv(g, root, idom, poNum, rpo) && (!changed ==> (forall j in 0.._k :: fixAt(g, root, idom, poNum, rpo[j])))
+//@   loop 5 (p) modifies nothing
+//@   loop 5 (p) preserves poNum[*], rpo[*], idom[*]
+//@   loop 5 (p) invariant newIdom == foldI(idom, poNum, g.In(b), _k) && (newIdom == -1 || (0 <= newIdom && newIdom < len(idom) && idom[newIdom] != -1))
+//@   assert @loop5:exit [assumed dfs-parent-processed] newIdom != -1 && poNum[newIdom] > poNum[b]
+//@   assert @loop3:exit [fixpoint] forall j in 0..len(rpo) :: fixAt(g, root, idom, poNum, rpo[j])
 //@   assigns nothing
 
 //@ func DomFrontier
 //@   model int
-//@   requires wfBi(g) && 0 <= root && root < g.NumNodes() && (isnil(idom) || isIDom(g, root, idom))
+//@   requires biReq(g) && 0 <= root && root < g.NumNodes() && (isnil(idom) || isIDom(g, root, idom))
 //@   ensures [len]     len(result) == g.NumNodes()
 //@   ensures [non-nil] forall x in 0..len(result) :: !isnil(result[x])
 //@   ensures [fresh]   fresh(result)
@@ -113,12 +172,13 @@ package graphalg
 
 //@ spec nodup(a []int) bool = forall i in 0..len(a), j in 0..len(a) :: i < j ==> a[i] != a[j]
 //@ spec allmarked(m NodeMarks, a []int) bool = forall k in 0..len(a) :: member(m, a[k])
-//@ spec wfG(g graph.Graph) bool = forall x int, k int :: 0 <= k && k < len(g.Out(x)) ==> g.Out(x)[k] >= 0
+//@ spec wfG(g graph.Graph) bool = g.NumNodes() >= 0 && (forall x in 0..g.NumNodes(), k in 0..len(g.Out(x)) :: 0 <= g.Out(x)[k] && g.Out(x)[k] < g.NumNodes())
+//@ spec allin(a []int, N int) bool = forall k in 0..len(a) :: 0 <= a[k] && a[k] < N
 
 //@ func PreOrder#lit1
 //@   model bv
 //@   abstract member
-//@   requires visited != nil && n >= 0 && wfG(g) && !member(*visited, n) && allmarked(*visited, out) && nodup(out)
+//@   requires visited != nil && 0 <= n && n < g.NumNodes() && wfG(g) && !member(*visited, n) && allmarked(*visited, out) && nodup(out) && allin(out, g.NumNodes())
 //@   requires forall x int :: region(g.Out(x)) != region(out) && !fresh(g.Out(x))
 //@   ensures [first]    len(out) > old(len(out)) && out[old(len(out))] == n
 //@   ensures [prefix]   forall k in 0..old(len(out)) :: out[k] == old(out[k])
@@ -127,22 +187,24 @@ package graphalg
 //@   ensures [monotone] forall j int :: old(member(*visited, j)) ==> member(*visited, j)
 //@   ensures [regions]  (region(out) == old(region(out)) || fresh(out)) && (region(visited.marks) == old(region(visited.marks)) || fresh(visited.marks))
 //@   ensures [graph]    wfG(g)
+//@   ensures [range]    allin(out, g.NumNodes())
 //@   loop 1 (succ) modifies *visited, visited.marks[*], old(visited.marks)[*], out[*], old(out)[*]
-//@   loop 1 (succ) invariant wfG(g) && visited != nil && len(out) > old(len(out)) && out[old(len(out))] == n && (forall k in 0..old(len(out)) :: out[k] == old(out[k])) && allmarked(*visited, out) && member(*visited, n) && nodup(out) && (forall j int :: old(member(*visited, j)) ==> member(*visited, j)) && (region(out) == old(region(out)) || fresh(out)) && (region(visited.marks) == old(region(visited.marks)) || fresh(visited.marks))
+//@   loop 1 (succ) invariant wfG(g) && allin(out, g.NumNodes()) && visited != nil && len(out) > old(len(out)) && out[old(len(out))] == n && (forall k in 0..old(len(out)) :: out[k] == old(out[k])) && allmarked(*visited, out) && member(*visited, n) && nodup(out) && (forall j int :: old(member(*visited, j)) ==> member(*visited, j)) && (region(out) == old(region(out)) || fresh(out)) && (region(visited.marks) == old(region(visited.marks)) || fresh(visited.marks))
 //@   assigns *visited, visited.marks[*], out[*]
 
 //@ func PreOrder
 //@   model bv
 //@   abstract member
-//@   requires root >= 0 && wfG(g) && (forall x int :: !fresh(g.Out(x)))
+//@   requires 0 <= root && root < g.NumNodes() && wfG(g) && (forall x int :: !fresh(g.Out(x)))
 //@   ensures [root-first] len(result) >= 1 && result[0] == root
 //@   ensures [nodup]      nodup(result)
+//@   ensures [range]      allin(result, g.NumNodes()) && fresh(result)
 //@   assigns nothing
 
 //@ func PostOrder#lit1
 //@   model bv
 //@   abstract member
-//@   requires visited != nil && n >= 0 && wfG(g) && !member(*visited, n) && allmarked(*visited, out) && nodup(out)
+//@   requires visited != nil && 0 <= n && n < g.NumNodes() && wfG(g) && !member(*visited, n) && allmarked(*visited, out) && nodup(out) && allin(out, g.NumNodes())
 //@   requires forall x int :: region(g.Out(x)) != region(out) && !fresh(g.Out(x))
 //@   ensures [last]     len(out) > old(len(out)) && out[len(out)-1] == n
 //@   ensures [prefix]   forall k in 0..old(len(out)) :: out[k] == old(out[k])
@@ -152,14 +214,16 @@ package graphalg
 //@   ensures [new]      forall k in old(len(out))..len(out), j int :: j == out[k] ==> !old(member(*visited, j))
 //@   ensures [regions]  (region(out) == old(region(out)) || fresh(out)) && (region(visited.marks) == old(region(visited.marks)) || fresh(visited.marks))
 //@   ensures [graph]    wfG(g)
+//@   ensures [range]    allin(out, g.NumNodes())
 //@   loop 1 (succ) modifies *visited, visited.marks[*], old(visited.marks)[*], out[*], old(out)[*]
-//@   loop 1 (succ) invariant wfG(g) && visited != nil && len(out) >= old(len(out)) && (forall k in 0..old(len(out)) :: out[k] == old(out[k])) && allmarked(*visited, out) && member(*visited, n) && nodup(out) && (forall j int :: old(member(*visited, j)) ==> member(*visited, j)) && (forall k in old(len(out))..len(out) :: out[k] != n) && (forall k in old(len(out))..len(out), j int :: j == out[k] ==> !old(member(*visited, j))) && (region(out) == old(region(out)) || fresh(out)) && (region(visited.marks) == old(region(visited.marks)) || fresh(visited.marks))
+//@   loop 1 (succ) invariant wfG(g) && allin(out, g.NumNodes()) && visited != nil && len(out) >= old(len(out)) && (forall k in 0..old(len(out)) :: out[k] == old(out[k])) && allmarked(*visited, out) && member(*visited, n) && nodup(out) && (forall j int :: old(member(*visited, j)) ==> member(*visited, j)) && (forall k in old(len(out))..len(out) :: out[k] != n) && (forall k in old(len(out))..len(out), j int :: j == out[k] ==> !old(member(*visited, j))) && (region(out) == old(region(out)) || fresh(out)) && (region(visited.marks) == old(region(visited.marks)) || fresh(visited.marks))
 //@   assigns *visited, visited.marks[*], out[*]
 
 //@ func PostOrder
 //@   model bv
 //@   abstract member
-//@   requires root >= 0 && wfG(g) && (forall x int :: !fresh(g.Out(x)))
+//@   requires 0 <= root && root < g.NumNodes() && wfG(g) && (forall x int :: !fresh(g.Out(x)))
 //@   ensures [root-last] len(result) >= 1 && result[len(result)-1] == root
 //@   ensures [nodup]     nodup(result)
+//@   ensures [range]     allin(result, g.NumNodes()) && fresh(result)
 //@   assigns nothing
